@@ -199,6 +199,13 @@ theorem export_follows_last_write (st : HistSt) (c : String) (a : List Rat) (ops
   unfold exportWinners winners
   rw [assoc_alphaOf_write st c a hc]
 
+/-- export is a function of the current coefficients only: earlier calls of `export()` on the same
+SuperNet leave no trace — what a later export selects is what it would select had they never
+happened (no cache, no memo may survive a write of alpha). -/
+theorem export_ignores_earlier_exports (st : HistSt) (ops : List HistOp) :
+    exportWinners (runHist st ops) = exportWinners (runHist st (ops.filter fun op => !op.isExport)) := by
+  rw [← runHist_filter_export]
+
 /-- a hard-selection block evaluated at alpha = (1,0), then loaded with alpha = (0,1) and exported
 without a forward pass in between -/
 def loadThenExport : List HistOp :=
